@@ -212,7 +212,9 @@ func C08(c *core.Ctx) {
 	c.Set("parseable", okc)
 	c.Sample(map[string]any{"text": cases[0]["text"], "formatted": cases[0]["formatted"]})
 	c.JudgeAndReport("Trace_Format", "Trace_Format.cfg", cases, 16,
-		func(old map[string]any) map[string]any { return formatCase(bin, dir, old["id"].(int), texts[old["id"].(int)-1]) },
+		func(old map[string]any) map[string]any {
+			return formatCase(bin, dir, old["id"].(int), texts[old["id"].(int)-1])
+		},
 		func(cs map[string]any) (string, string) {
 			return "format:" + fmt.Sprint(cs["why"]), fmt.Sprintf("format: %v (cli exit %v) %v\n--- input\n%v\n--- formatted\n%v", cs["why"], cs["cliExit"], cs["stderr"], cs["text"], cs["formatted"])
 		})
